@@ -708,6 +708,15 @@ def oracle(case, obj, before, old, new, outcome, rep, pandas_mixin=False):
                 if not any(same_value(a1[i], a0[k]) for k in occ):
                     bc.violate(rep, pre + 'reindex-overlap-value', f'{nm}[{lab!r}] = {a1[i]!r}, old value {a0[occ[0]]!r}', case)
                     break
+                # a label repeated in a sequence-type old span: "its old value" is the value the label addresses
+                # (`obj[name, label]`, i.e. list.index: the FIRST occurrence — C10, theorem `first_occurrence`); a
+                # result built from a later occurrence no longer answers a label-addressed read as the original does
+                if (len(occ) > 1 and bc.span_family(case['span_kind']) == 'list'
+                        and not same_value(a1[i], a0[occ[0]])):
+                    bc.violate(rep, pre + 'reindex-overlap-not-first-occurrence',
+                               f'{nm}[{lab!r}] = {a1[i]!r}: the label is repeated in the old span and addresses '
+                               f'{a0[occ[0]]!r} there (first occurrence), the result holds the value of a later occurrence', case)
+                    break
             elif judged and not same_value(a1[i], fill):
                 key = 'reindex-bytes-default' if (a0.dtype.kind == 'S' and kw.get(nm) is None and kw.get('fill_value') is None) \
                     else 'reindex-fill-value'
